@@ -57,6 +57,15 @@ type Fn struct {
 	Info     bool     `json:"info"`
 	ErrPos   *int     `json:"err_pos"` // position of the error result among the results (default: last)
 	Pool     *int     `json:"pool"`    // use the declared function P<pool> instead of a reflect.MakeFunc value
+	// re-entrant user code: during execution Exec the body calls
+	// <scope>.Invoke(function Fn) and ignores the error it returns
+	Nested []Nested `json:"nested"`
+}
+
+type Nested struct {
+	Exec  int `json:"exec"`
+	Scope int `json:"scope"`
+	Fn    int `json:"fn"`
 }
 
 type Op struct {
@@ -361,6 +370,7 @@ type runner struct {
 	scopes  []*dig.Scope
 	cont    *dig.Container
 	poolFn  map[int]*Fn
+	nested  func(scope, fn int)
 }
 
 func (r *runner) planAt(f *Fn, e int) string {
@@ -408,6 +418,11 @@ func (r *runner) body(f *Fn, role string, args []reflect.Value) []reflect.Value 
 		r.events = append(r.events, Event{Ev: "exec", F: f.ID, E: e, Role: role, Args: logged, Out: plan})
 		if e < len(f.Dur) && f.Dur[e] > 0 {
 			r.advance(time.Duration(f.Dur[e]))
+		}
+		for _, n := range f.Nested {
+			if n.Exec == e && r.nested != nil {
+				r.nested(n.Scope, n.Fn)
+			}
 		}
 		if plan == "panic" {
 			panic(&UserPanic{f.ID, e})
